@@ -4,7 +4,7 @@
 //! repository's current working tree.  Module `cNN` holds the harnesses of property `CNN`;
 //! sub-module `q` is the quick lattice, `t` the additional thorough lattice.
 #![allow(dead_code, unused_imports, unused_macros, unused_variables, unused_mut, static_mut_refs, clippy::all)]
-#![cfg_attr(kani, feature(formatting_options))]
+#![feature(formatting_options)]   // harnesses build a core::fmt::Formatter directly; native replays use the same nightly toolchains
 extern crate alloc;
 
 #[macro_use]
@@ -75,11 +75,11 @@ pub mod c09;
 pub mod c10;
 pub mod c11;
 pub mod c13;
-#[cfg(kani)]
 pub mod c14;
 pub mod c15;
 pub mod c16;
 pub mod c17;
+#[cfg(feature = "c18")]
 pub mod c18;
 pub mod c19;
 pub mod gen_c20;
